@@ -7,7 +7,16 @@ import numpy as np
 
 VERIF = os.path.dirname(os.path.dirname(os.path.abspath(__file__)))
 LEAN_DIR = os.path.join(VERIF, "lean")
-DRV = os.path.join(LEAN_DIR, ".lake", "build", "bin", "drv")
+BIN = os.path.join(LEAN_DIR, ".lake", "build", "bin")
+
+
+def driver_for(entry):
+    """which of the three drivers serves an entry point (see lean/lakefile.toml)"""
+    if entry.startswith("Stog.") or entry.startswith("Wf."):
+        return "drvm", "MainModel.lean"
+    if entry.startswith("Model.") or entry.startswith("Cfg."):
+        return "drvp", "MainPure.lean"
+    return "drv", "MainGen.lean"
 
 
 def f2b(x):
@@ -64,23 +73,28 @@ class ModelError(Exception):
 
 
 def run_model(lines, exe=None, timeout=600):
-    """send all request lines, return {id: ('ok', [np.array…]) | ('err', msg)}"""
-    exe = exe or DRV
-    if os.path.exists(exe):
-        cmd = [exe]
-    else:  # fall-back: interpreter
-        cmd = ["lake", "env", "lean", "--run", "Main.lean"]
-    p = subprocess.run(cmd, input="\n".join(lines) + "\n", capture_output=True, text=True, cwd=LEAN_DIR, timeout=timeout)
-    if p.returncode != 0:
-        raise ModelError(f"driver exit {p.returncode}: {p.stderr[-2000:]}")
+    """send all request lines (routed to the driver that serves each entry), return {id: ('ok', [np.array…]) | ('err', msg)}"""
+    groups = {}
+    for l in lines:
+        entry = l.split(";", 2)[1]
+        groups.setdefault(driver_for(entry), []).append(l)
     out = {}
-    for l in p.stdout.splitlines():
-        if not l.strip():
-            continue
-        rid, _, rest = l.partition(" ")
-        st, _, body = rest.partition(" ")
-        if st == "ok":
-            out[rid] = ("ok", [dec_vec(t) for t in body.split("|")])
-        else:
-            out[rid] = ("err", body)
+    for (name, root), ls in groups.items():
+        path = os.path.join(BIN, name)
+        if os.path.exists(path):
+            cmd = [path]
+        else:  # fall-back: interpreter
+            cmd = ["lake", "env", "lean", "--run", root]
+        p = subprocess.run(cmd, input="\n".join(ls) + "\n", capture_output=True, text=True, cwd=LEAN_DIR, timeout=timeout)
+        if p.returncode != 0:
+            raise ModelError(f"driver {name} exit {p.returncode}: {p.stderr[-2000:]}")
+        for l in p.stdout.splitlines():
+            if not l.strip():
+                continue
+            rid, _, rest = l.partition(" ")
+            st, _, body = rest.partition(" ")
+            if st == "ok":
+                out[rid] = ("ok", [dec_vec(t) for t in body.split("|")])
+            else:
+                out[rid] = ("err", body)
     return out
